@@ -1,11 +1,12 @@
 (* Extraction of the executable model.  ExtrOcamlBasic only: bool, option, unit, list, prod, sumbool
    map to OCaml's own types; numbers (positive, N, Z, nat) stay the extracted Coq datatypes. *)
 From Coq Require Import Extraction ExtrOcamlBasic.
-From Lug Require Import Utf8.Utf8Model Utf8.Utf8Spec Ucd.Rle Ucd.Lookup Ucd.RuneSet VM.Instr Lang.Expr Lang.Elab Lang.Codegen Lang.Link Lang.Lower VM.Machine.
+From Lug Require Import Utf8.Utf8Model Utf8.Utf8Spec Ucd.Rle Ucd.Lookup Ucd.RuneSet VM.Instr Lang.Expr Lang.Elab Lang.Codegen Lang.Link Lang.Lower VM.Machine Spec.Peg Spec.PegEval Proofs.LinkStmt Proofs.TopStmt.
 Extraction Language OCaml.
 Extraction "model.ml" decode_rune encode_rune count_runes decode_all
   wf_prefix dec_conforms enc_conforms
   decompress_table dec_stage1 dec_stage2 records_list query_index record_at query tocasefold tolower toupper cwidth ucwidth
   rec_all_of rec_any_of rec_none_of
   push_range push_casefolded_range push_rune sort_and_optimize negate contains rs_empty
-  compile lower step init_state fetch desugar.
+  compile lower step init_state fetch desugar
+  compile_defs link_layout frag peg_eval top_pexp rules_of placed default_space_expr and_free.
